@@ -303,6 +303,26 @@ def run(ctx):
         if not ok:
             r.violate(key, f"{f.key.split('::')[-1]}: fields examined before the handler is moved into its Box: {early}; write_all_callback tests dominated by the move: {bool(tests) and bool(bx) and all(f.dominates(bx[0], t_) for t_ in tests)} — a handler rejected for a missing write_all_callback would never get its drop_callback (lol_html.h: called exactly once), leaking what user_data owns", f.loc())
 
+    # ------------------------------------------------------------------ R17.8
+    r = ctx.rule("R17.8", "the C sink and the C error contract mirror the Rust ones: ExternOutputSink::handle_chunk forwards every chunk (including the zero-length finalizing one) unconditionally; lol_html_element_add_end_tag_handler fails with an error message when the element has no end tag", "E-MIR", floor=2)
+    hc = capi.fn("ExternOutputSink::handle_chunk[OutputSink]")
+    ind = [bi for bi, t in hc.calls() if t.get("how") == "indirect"]
+    r.inst("handle_chunk|unconditional", sample={"callback_calls": len(ind)})
+    if len(ind) != 1 or any(b["term"]["k"] == "switch" for b in hc.blocks if not b["cleanup"]) or not all(hc.dominates(ind[0], rb) for rb in hc.return_blocks()):
+        r.violate("handle_chunk|unconditional", "ExternOutputSink::handle_chunk no longer calls the C output callback on every path: a chunk (e.g. the zero-length end-of-output chunk documented in lol_html.h) would reach a Rust OutputSink but not the C one", hc.loc())
+    ae = [x for x in capi.fns if x.key.endswith("lol_html_element_add_end_tag_handler")]
+    r.inst("add_end_tag_handler|no-end-tag-is-an-error")
+    oka = False
+    if ae:
+        ae = ae[0]
+        eh = [bi for bi, t in ae.calls(r"Element::end_tag_handlers$")]
+        sv = [bi for bi, t in ae.calls(r"save_last_error$")]
+        ps = [bi for bi, t in ae.calls(r"Vec::push$")]
+        # the push must not be reachable on the path that records the error, and an error-recording path must exist
+        oka = len(eh) == 1 and bool(sv) and bool(ps) and all(ae.dominates(eh[0], x) for x in sv + ps) and not any(p_ in ae.reachable_blocks(s_) for s_ in sv for p_ in ps)
+    if not oka:
+        r.violate("add_end_tag_handler|no-end-tag-is-an-error", "lol_html_element_add_end_tag_handler no longer records an error (-1 + last-error message) when the element cannot have an end tag: the C caller gets 0 and its handler is silently dropped, while Element::on_end_tag() in Rust returns Err", ae.loc() if ae else None)
+
     # ------------------------------------------------------------------ R17.6
     r = ctx.rule("R17.6", "handler closures outlive the builder: the closures the C API hands to the Rust rewriter (as_safe_*_content_handlers, lol_html_element_add_end_tag_handler) capture the C callback and the user_data pointer by value only — never a reference or pointer into the builder's handler storage, which lol_html.h allows to be freed before the rewriter runs", "E-MIR closure captures", floor=7)
     for f in capi.fns:
